@@ -56,8 +56,8 @@ Flags1(P, s, n) ==
   \cup UNION { EvDefs(P, s, i, n) : i \in 1..Len(P[s].ev) }
   \cup (IF \E i \in 1..Len(P[s].ev) : P[s].ev[i].op = "global" /\ P[s].ev[i].n = n THEN {"G"} ELSE {})
   \cup (IF \E i \in 1..Len(P[s].ev) : P[s].ev[i].op = "nonlocal" /\ P[s].ev[i].n = n THEN {"N"} ELSE {})
-Blocks(P) == WithModuleGlobals([s \in 1..Len(P) |->
-                [type |-> BlockType(P[s].kind), parent |-> P[s].parent, flags |-> [n \in Names |-> Flags1(P, s, n)]]])
+Blocks(P) == WithModuleGlobals(TLCEval([s \in 1..Len(P) |->
+                [type |-> BlockType(P[s].kind), parent |-> P[s].parent, flags |-> TLCEval([n \in Names |-> Flags1(P, s, n)])]]))
 
 \* ---------------------------------------------------------------- compile-time rejections
 DupParam(P) == \E s \in 1..Len(P) : \E n \in Names : P[s].par[n].k = "dup"
@@ -82,9 +82,10 @@ RejectWhy(P) == IF DupParam(P) THEN "dup-param"
 \*   loc   Names -> value   fast locals of a function-like scope / the namespace of a class body
 \*   cl    Names -> cell    cells of this activation (own CELL variables and captured FREE ones)
 \*   fn    scope -> function object or NoFn   the private names the child definitions are bound to
-NoFn == [sc |-> 0, cl |-> [n \in Names |-> 0], df |-> [n \in Names |-> UNB]]
-St0 == [glob |-> [n \in Names |-> UNB], cells |-> <<>>, log |-> <<>>, org |-> <<>>, fns |-> <<>>, bad |-> FALSE]
-Fr0(P) == [loc |-> [n \in Names |-> UNB], cl |-> [n \in Names |-> 0], fn |-> [c \in 1..Len(P) |-> NoFn]]
+NoFn == [sc |-> 0, cl |-> TLCEval([n \in Names |-> 0]), df |-> TLCEval([n \in Names |-> UNB])]
+St0 == [glob |-> TLCEval([n \in Names |-> UNB]), cells |-> <<>>, log |-> <<>>, org |-> <<>>, fns |-> <<>>, bad |-> FALSE]
+NoFns(P) == TLCEval([c \in 1..Len(P) |-> NoFn])
+Fr0(P) == [loc |-> TLCEval([n \in Names |-> UNB]), cl |-> TLCEval([n \in Names |-> 0]), fn |-> NoFns(P)]
 Tag(pre, s, i) == pre \o ToString(s) \o "." \o ToString(i)
 LogV(st, v, o) == [st EXCEPT !.log = Append(@, v), !.org = Append(@, o)]
 CellVal(st, k) == IF k \in 1..Len(st.cells) THEN st.cells[k] ELSE UNB
@@ -94,7 +95,7 @@ CellVal(st, k) == IF k \in 1..Len(st.cells) THEN st.cells[k] ELSE UNB
 \* declares it global (the class body is skipped by the reference, but must hand the cell down)
 Captures(B, b, n) == \/ ClassifyD(B, b, n) = FREE
                      \/ (B[b].type = "class" /\ \E d \in Desc(B, b) : RefersFree(B, d, n) /\ Binder(B, d, n) \in AncSet(B, b))
-Tables(B) == [cls |-> ClassTable(B), cap |-> [b \in 1..Len(B) |-> [n \in Names |-> Captures(B, b, n)]]]
+Tables(B) == [cls |-> ClassTable(B), cap |-> TLCEval([b \in 1..Len(B) |-> TLCEval([n \in Names |-> Captures(B, b, n)])])]
 \* the value a LOAD of n in scope s yields (UNB = NameError); C = Tables(Blocks(P))
 LoadN(P, C, s, n, st, fr) ==
   LET k == P[s].kind  c == C.cls[s][n] IN
@@ -131,20 +132,20 @@ Org(P, C, s, n, what) == what \o ":" \o P[s].kind \o "/" \o C.cls[s][n]
 
 \* function object for child c created in scope s with frame fr: captures the CELLS (not the values)
 \* of every name that is free in c; the default values dv
-Closure(P, C, c, fr, dv) == [sc |-> c, cl |-> [n \in Names |-> IF C.cap[c][n] THEN fr.cl[n] ELSE 0], df |-> dv]
+Closure(P, C, c, fr, dv) == [sc |-> c, cl |-> TLCEval([n \in Names |-> IF C.cap[c][n] THEN fr.cl[n] ELSE 0]), df |-> dv]
 ClosureOk(P, C, c, fr) == \A n \in Names : C.cap[c][n] => fr.cl[n] # 0
 
 \* new activation of function-like scope clo.sc: parameters from the call / the defaults, one NEW
 \* cell per CELL variable (initialised from the parameter if it is one), FREE cells from the closure
 NewFrame(P, C, clo, argtag, st) ==
   LET c == clo.sc
-      pv == [n \in Names |-> IF P[c].par[n].k = "arg" THEN argtag ELSE IF P[c].par[n].k = "dflt" THEN clo.df[n] ELSE UNB]
+      pv == TLCEval([n \in Names |-> IF P[c].par[n].k = "arg" THEN argtag ELSE IF P[c].par[n].k = "dflt" THEN clo.df[n] ELSE UNB])
       cellNames == SelectSeq(NameSeq, LAMBDA n : C.cls[c][n] = CELL)
       idx(n) == Len(st.cells) + (CHOOSE i \in 1..Len(cellNames) : cellNames[i] = n)
-  IN [st |-> IF cellNames = <<>> THEN st ELSE [st EXCEPT !.cells = @ \o [i \in 1..Len(cellNames) |-> pv[cellNames[i]]]],
-      fr |-> [loc |-> [n \in Names |-> IF C.cls[c][n] = CELL THEN UNB ELSE pv[n]],
-              cl |-> [n \in Names |-> IF C.cls[c][n] = CELL THEN idx(n) ELSE IF C.cap[c][n] THEN clo.cl[n] ELSE 0],
-              fn |-> [d \in 1..Len(P) |-> NoFn]]]
+  IN [st |-> IF cellNames = <<>> THEN st ELSE [st EXCEPT !.cells = @ \o TLCEval([i \in 1..Len(cellNames) |-> pv[cellNames[i]]])],
+      fr |-> [loc |-> TLCEval([n \in Names |-> IF C.cls[c][n] = CELL THEN UNB ELSE pv[n]]),
+              cl |-> TLCEval([n \in Names |-> IF C.cls[c][n] = CELL THEN idx(n) ELSE IF C.cap[c][n] THEN clo.cl[n] ELSE 0]),
+              fn |-> NoFns(P)]]
 
 RECURSIVE RunBody(_, _, _, _), DoEvent(_, _, _, _, _), CallFn(_, _, _, _, _), EvalComp(_, _, _, _, _), Define(_, _, _, _, _)
 
@@ -160,7 +161,7 @@ EvalComp(P, C, s, c, X) ==
       items == IF P[c].iter = "-" THEN << "i" \o ToString(c) \o "a", "i" \o ToString(c) \o "b" >> ELSE << itv >>
   IN IF itv = UNB THEN [X EXCEPT !.exc = TRUE]
      ELSE IF ~ClosureOk(P, C, c, X.fr) THEN [X EXCEPT !.st.bad = TRUE]
-     ELSE LET nf == NewFrame(P, C, Closure(P, C, c, X.fr, [n \in Names |-> UNB]), UNB, X.st)
+     ELSE LET nf == NewFrame(P, C, Closure(P, C, c, X.fr, NoFn.df), UNB, X.st)
               Y0 == [st |-> nf.st, fr |-> nf.fr, exc |-> FALSE]
               Y1 == FoldLeft(LAMBDA Y, item :
                         IF Y.exc THEN Y
@@ -173,7 +174,7 @@ Define(P, C, s, i, X) ==
   LET c == P[s].ev[i].c
       k == P[c].kind
       dn == SelectSeq(NameSeq, LAMBDA n : P[c].par[n].k = "dflt")
-      dvs == [n \in Names |-> IF P[c].par[n].k = "dflt" THEN LoadN(P, C, s, P[c].par[n].from, X.st, X.fr) ELSE UNB]
+      dvs == TLCEval([n \in Names |-> IF P[c].par[n].k = "dflt" THEN LoadN(P, C, s, P[c].par[n].from, X.st, X.fr) ELSE UNB])
       dfail == \E j \in 1..Len(dn) : dvs[dn[j]] = UNB
   IN IF k = "comp" THEN EvalComp(P, C, s, c, X)
      ELSE IF dfail THEN [X EXCEPT !.exc = TRUE]                 \* a default is evaluated when the def is executed
@@ -181,7 +182,7 @@ Define(P, C, s, i, X) ==
      ELSE LET clo == Closure(P, C, c, X.fr, dvs) IN
           IF k = "class" THEN      \* the body runs now, in a namespace of its own
                LET R == RunBody(P, C, c, [st |-> X.st, exc |-> FALSE,
-                                         fr |-> [loc |-> [n \in Names |-> UNB], cl |-> clo.cl, fn |-> [d \in 1..Len(P) |-> NoFn]]])
+                                         fr |-> [loc |-> NoFn.df, cl |-> clo.cl, fn |-> NoFns(P)]])
                IN [X EXCEPT !.st = R.st, !.exc = R.exc]
           ELSE LET X1 == [X EXCEPT !.st.fns = Append(@, clo), !.fr.fn[c] = clo] IN
                IF k = "lambda" /\ ~StmtKind(P[s].kind)
